@@ -6,7 +6,7 @@ import os
 from vf import build, recs, graph
 
 EVENTS = {
-    "r": "rx,tx,to,err,close,msg",
+    "r": "rx,tx,to,err,close,msg,unread",
     "s": "rx,tx,to,err,close,msg,sub,subcb,ntf,del,fin,bad",
     "t": "rx,tx,to,err,close,msg,sub,subcb,ntf,del,fin,bad",
     "q": "rx,tx,enhreq,err,close,to,sub,subcb,ntf,del,fin,bad,nofin",
